@@ -688,6 +688,7 @@ def async_nested_stream(tag, seed, n, **genkw):
 def impl_hsm_reent(case):
     """impl_hsm where a callback's actions are performed: model.trigger(event) from inside the callback (processed at
     once on an unqueued machine), payload 2000 + 8 * position + k as in the re-entrant engines"""
+    flat.STALE_SCOPE_AS_VALUEERROR[0] = True
     world = World(case['env'], case['machine']['send'])
     world.state_of = state_forest
     cname = case.get('cls', 'HierarchicalMachine')
@@ -712,23 +713,6 @@ def impl_hsm_reent(case):
             res = [1, classify_exc(ex)]
         out.append([world.items, res, world.state_of(model)])
     return [1, init_cfg, out]
-
-
-def _stale_scope_exn(obs):
-    """an outer transition whose declaring scope was left by an event triggered from one of its earlier callbacks
-    crashes in reduce(dict.get, scope, tree): AttributeError when the last scope element is gone, TypeError when an
-    intermediate one is - the model says AttributeError for both; TypeError ('other', code 9) is read as that"""
-    if not isinstance(obs, list) or obs[0] != 1:
-        return obs
-    def fix(x):
-        return [1, 0] if x == [9, 0] else x
-    out = []
-    for items, res, cfg in obs[2]:
-        items = [it[:5] + [[fix(x) for x in it[5]]] + it[6:] for it in items]
-        if res[0] == 1:
-            res = [1, fix(res[1])]
-        out.append([items, res, cfg])
-    return [1, obs[1], out]
 
 
 def reent_stream(tag, seed, n, **genkw):
@@ -758,7 +742,7 @@ def reent_stream(tag, seed, n, **genkw):
     nested = 0
     for c, m, i in zip(cases, mo, io):
         hc = dict(c, history=[(0, e, a) for e, a in c['history']])
-        mm, ii = mask_handled(hc, m), mask_handled(hc, _stale_scope_exn(i))
+        mm, ii = mask_handled(hc, m), mask_handled(hc, i)
         if isinstance(mm, list) and mm[0] == 1:
             nested += sum(1 for st in mm[2] for it in st[0] if it[4][1] >= 2000)
             if any(st[1] == [1, [4, 99]] for st in mm[2]):
